@@ -845,13 +845,17 @@ def pout_term(o):
 
 def run(ctx, replay=None):
     ctx.rule = ("cases: (a) pairs of whole runs of a real scheduler (HyperbandScheduler stopping / promotion / pasha / "
-                "rush_stopping / rush_promotion, SynchronousGeometricHyperbandScheduler, MedianStoppingRule, "
-                "PopulationBasedTraining, FIFOScheduler; searcher random) under a harness-side tuner loop: mode min on a "
-                "random metric table f versus mode max on -f, same seeds and script; all suggestions (configs, resumed "
+                "rush_stopping / rush_promotion, SynchronousGeometricHyperbandScheduler, "
+                "GeometricDifferentialEvolutionHyperbandScheduler, MedianStoppingRule, PopulationBasedTraining, FIFOScheduler "
+                "with random and RegularizedEvolution searcher, MOASHA with per-metric modes) under a harness-side tuner "
+                "loop: mode min on a random metric table f versus mode max on -f (MOASHA: a subset of the metrics flipped "
+                "and negated), same seeds and script; all suggestions (configs, resumed "
                 "trials, checkpoints) and decisions are compared; non-trivial = the run contains a STOP/PAUSE decision or a "
-                "resumed trial; (b) unit cases for get_top_list, MedianStoppingRule, print_best_metric_found in both modes "
-                "against model/ModeCores.v; non-trivial = at least two distinct values and a proper cut; distinct by "
-                "content hash")
+                "resumed trial (REA: a suggestion by mutation); (b) unit cases for get_top_list, MedianStoppingRule, "
+                "print_best_metric_found, RegularizedEvolution, MOASHA signed metrics, ExperimentResult.best_config in both "
+                "modes and random call scripts on the real PromotionRungSystem (schedule / add / report / remove, unknown "
+                "trials, skipped milestones) against model/ModeCores.v, each also paired with its mirror on the real code; "
+                "non-trivial = at least two distinct values and a proper cut / a promotion happened; distinct by content hash")
     rng = ctx.rng
     unit_cases(ctx, replay)
     unit_cases2(ctx, replay)
